@@ -139,7 +139,9 @@ func judgePoint(p *object.Point, h, v int64, got string) (class, msg string, ban
 	}
 	if id.X != wx {
 		d := ref.XBand(h)
-		if frac <= d && (id.X == wx-1 || id.X == wx+1) && id.X >= 0 && id.X < n {
+		// (a longitude exactly on a column boundary is a dyadic number: lon+180, the division by 360 and the
+		// scaling are then all exact in float64, so there is nothing to tolerate)
+		if !ref.OnColumnBoundary(p.Lon(), h) && frac <= d && (id.X == wx-1 || id.X == wx+1) && id.X >= 0 && id.X < n {
 			band = true
 		} else {
 			return "point-x", fmt.Sprintf("lon %v at hZoom %d: x = %d, floor(2^h(lon+180)/360) = %d", p.Lon(), h, id.X, wx), false
